@@ -795,6 +795,10 @@ func helperHasEffect(h *ssa.Function, depth int) bool {
 			if ref, _, ok := fieldAddrRef(st.Addr); ok && ref.Owner == "tcell.tScreen" {
 				found = true
 			}
+			// an append to an event list handed in by pointer
+			if pa, isP := st.Addr.(*ssa.Parameter); isP && strings.HasSuffix(pa.Type().String(), "[]github.com/gdamore/tcell/v2.Event") {
+				found = true
+			}
 		}
 		if cc := callCommon(in); cc != nil {
 			n := calleeName(cc)
